@@ -511,6 +511,14 @@ fn hash_of(z: &Zoned) -> u64 {
     h.finish()
 }
 
+thread_local! {
+    /// structured arguments of the operation just executed (set by the with-builders of the alphabet)
+    static LAST_ARGS: std::cell::RefCell<Value> = std::cell::RefCell::new(Value::Null);
+}
+fn set_args(v: Value) {
+    LAST_ARGS.with(|c| *c.borrow_mut() = v);
+}
+
 fn step_event(hid: u64, k: usize, name: &str, prev: &Zoned, pzi: i64, cur: &Result<Result<Zoned, jiff::Error>, String>, zi: i64, keep: bool) -> Value {
     let (eq, ord, heq) = match cur {
         Ok(Ok(c)) => {
@@ -525,8 +533,10 @@ fn step_event(hid: u64, k: usize, name: &str, prev: &Zoned, pzi: i64, cur: &Resu
         }
         _ => (0, 0, 0),
     };
+    let args = LAST_ARGS.with(|c| c.replace(Value::Null));
+    let args = if args.is_null() { json!({"kind":"none"}) } else { args };
     json!({"op":"z_step","cls": if keep {"zone-change"} else {"history-step"},"hid":hid,"k":k,"name":name,"zi":zi,"pzi":pzi,
-           "prev":zval(prev),"cur":zres(cur),"eq":eq,"ord":ord,"heq":heq,"keep": if keep {1} else {0}})
+           "prev":zval(prev),"cur":zres(cur),"eq":eq,"ord":ord,"heq":heq,"keep": if keep {1} else {0},"args":args})
 }
 
 /// one random operation on a Zoned; returns (name, result, stays in the same zone slot?, keeps instant?)
@@ -566,6 +576,12 @@ fn op_by_code(code: u64, rng: &mut Rng, z: &Zoned, other: &TimeZone) -> (String,
                 _ => *rng.pick(&[jiff::tz::Offset::MIN, jiff::tz::Offset::MAX, jiff::tz::Offset::UTC]),
             };
             let oc = *rng.pick(&[jiff::tz::OffsetConflict::AlwaysTimeZone, jiff::tz::OffsetConflict::PreferOffset, jiff::tz::OffsetConflict::Reject, jiff::tz::OffsetConflict::AlwaysOffset]);
+            set_args(json!({"kind":"off","off":off.seconds(),"oc": match oc {
+                jiff::tz::OffsetConflict::AlwaysOffset => "always-offset",
+                jiff::tz::OffsetConflict::AlwaysTimeZone => "always-tz",
+                jiff::tz::OffsetConflict::PreferOffset => "prefer",
+                _ => "reject",
+            }}));
             (format!("with().offset({off}).offset_conflict({oc:?})"), guard(|| z.with().offset(off).offset_conflict(oc).build()), true, false)
         }
         19 => {
@@ -612,11 +628,13 @@ fn op_by_code_base(code: u64, rng: &mut Rng, z: &Zoned, other: &TimeZone, all: &
         10 => {
             let h = rng.range(0, 23) as i8;
             let mi = rng.range(0, 59) as i8;
+            set_args(json!({"kind":"hm","h":h,"mi":mi}));
             (format!("with().hour({h}).minute({mi})"), guard(|| z.with().hour(h).minute(mi).build()), true, false)
         }
         11 => {
             let d = rng.range(1, 28) as i8;
             let m = rng.range(1, 12) as i8;
+            set_args(json!({"kind":"md","m":m,"d":d}));
             (format!("with().month({m}).day({d})"), guard(|| z.with().month(m).day(d).build()), true, false)
         }
         12 => {
